@@ -61,8 +61,13 @@ FAMILIES_THOROUGH = [(f, n * 15, kw) for f, n, kw in FAMILIES_QUICK]
 
 # round-c families (generators in _hist2.py): (generator, histories in the quick tier, keyword arguments)
 FAMILIES2_QUICK = [("sametext", 4, {}), ("sametext", 1, {"minimal": True}), ("samestamp", 4, {}), ("samestamp", 1, {"minimal": True}),
-                   ("swapdep", 3, {}), ("swapdep", 1, {"minimal": True}), ("swapraw", 1, {}), ("swapraw", 1, {"minimal": True})]
-GEN2 = {"sametext": H2.gen_sametext, "samestamp": H2.gen_samestamp, "swapdep": H2.gen_swapdep, "swapraw": H2.gen_swapraw}
+                   ("swapdep", 3, {}), ("swapdep", 1, {"minimal": True}), ("swapraw", 1, {}), ("swapraw", 1, {"minimal": True}),
+                   # round d (appended, so that the histories of the families above stay what they were)
+                   ("taintfail2", 2, {}), ("taintfail2", 1, {"minimal": True}), ("taintfail", 2, {}), ("spell", 3, {}), ("spell", 1, {"minimal": True}),
+                   ("bincut", 2, {}), ("bincut", 1, {"minimal": True})]
+GEN2 = {"sametext": H2.gen_sametext, "samestamp": H2.gen_samestamp, "swapdep": H2.gen_swapdep, "swapraw": H2.gen_swapraw,
+        "taintfail2": H2.gen_taintfail2, "taintfail": lambda rng, **kw: H.gen_history(rng, "taintfail", full=True, **kw),
+        "spell": H2.gen_spell, "bincut": H2.gen_bincut}
 
 SIG_GLOBOUT = "noop-rebuild-executes:input-glob-matches-dependency-output"
 
@@ -92,7 +97,9 @@ def run(ctx):
                             " + glob-matches-dependency-output; taintedit = taint + edit of the tainted target + no-op rebuild, relocate = the workspace moved to "
                             "another absolute path with its cache directory renamed along, dirs = directory outputs with a symlink tampered in place; round-c families: "
                             + ", ".join("%s%s x%d" % (f, "(minimal)" if kw.get("minimal") else "", n) for f, n, kw in FAMILIES2_QUICK) +
-                            " (sametext = output checks with identical text in different packages / with different environment_variables, the condition of some "
+                            " (round d: taintfail2 / taintfail = a tainted target whose forced run fails, for a reason outside its key or after an edit, then the cause is removed; "
+                            "spell = file outputs declared as ./x, d//x, d/./x; bincut = a tool with only a bin_output / a library re-executed with byte-identical outputs, "
+                            "dependants must be cut off; sametext = output checks with identical text in different packages / with different environment_variables, the condition of some "
                             "destroyed; samestamp = every file carries the same mtime after every edit, most edits keep the file length; swapdep/swapraw = two or three "
                             "outputs of one target exchange their contents, with dependants); non-trivial = distinct history with >=2 builds, one executing and one with a hit")
     recs = H.run_both(ctx, hists, "c02")
@@ -120,6 +127,25 @@ def run(ctx):
                           {"kind": "oracle", "oracle": "not executed => executed earlier in exactly this state (definition, input contents, dependency outputs)",
                            "history": small, "described": H.describe(small), "build": f["build"], "target": f["target"], "why": f["why"]},
                           signature="restored-in-a-state-never-built")
+        # a tainted target stays distrusted until it has been executed successfully (a failed forced run does not consume the taint)
+        for f in H2.pending_taint_misses(h, r["real"])[:1]:
+            cnt["oracle_failures"] += 1
+            small = H.truncate(h, f["build"] + 1)
+            ctx.violation("a target that was tainted and has not been executed successfully since was served from the cache",
+                          {"kind": "oracle", "oracle": "executed set = predicted set (tainted and not yet successfully re-executed => executed)",
+                           "history": small, "described": H.describe(small), "build": f["build"], "target": f["target"]},
+                          signature="tainted-target-not-executed-after-failed-run")
+        # early cut-off / no-op on the families whose dependencies reproduce byte-identical outputs (bin-only tools, respelled outputs)
+        if set(h.get("tags", [])) & {"bincut", "spell"}:
+            cnt["rebuilt_state_histories"] = cnt.get("rebuilt_state_histories", 0) + 1
+            for f in H2.rebuilt_state_executions(h, r["real"])[:1]:
+                cnt["oracle_failures"] += 1
+                small = H.truncate(h, f["build"] + 1)
+                ctx.violation("a target was executed although the previous build left a result for exactly its current state in the cache "
+                              "(own state unchanged, every dependency reproduced byte-identical outputs): no early cut-off / no-op",
+                              {"kind": "oracle", "oracle": "same own state and byte-identical dependency outputs as in the previous successful build => restored",
+                               "history": small, "described": H.describe(small), "build": f["build"], "target": f["target"]},
+                              signature="reexecuted-in-a-state-just-built")
         seen = {}           # label -> set of (own state, dependency labels) the target has been built in
         for b in H.walk(h, r["real"]):
             o, ws, prev = b["obs"], b["ws"], b["prev"]
@@ -216,6 +242,7 @@ def run(ctx):
 
 
 def replay(ctx, rep):
-    if rep.get("signature") in ("restored-in-a-state-never-built", "failing-check-not-executed"):
+    if rep.get("signature") in ("restored-in-a-state-never-built", "failing-check-not-executed", "tainted-target-not-executed-after-failed-run",
+                                "reexecuted-in-a-state-just-built"):
         return H2.replay_oracles(ctx, rep)
     return H.replay_history(ctx, rep)
